@@ -49,8 +49,8 @@ TABLE = [
     ("C10", r".*", r".*", ["teval_terminal", "events_multi_in_step", "events_with_late_teval"]),
     ("C12", r".*", r".*", ["output_options", "radau_dense_flag_invariance"]),
     ("C13", r".*", r"err\.|norm\.", ["duplication_invariance"]),
-    ("C13", r".*", r"step\.|hinit|dir", ["time_reflection", "pow2_scaling"]),
-    ("C13", r".*", r".*", ["radau_scalar_vector_tol", "duplication_invariance", "time_reflection", "pow2_scaling", "event_reflection"]),
+    ("C13", r".*", r"step\.|hinit|dir", ["time_reflection", "time_reflection_stiff", "pow2_scaling"]),
+    ("C13", r".*", r".*", ["radau_scalar_vector_tol", "duplication_invariance", "time_reflection", "time_reflection_stiff", "pow2_scaling", "event_reflection"]),
     ("C08", r"solout", r"crossed|direction|detect", ["event_reflection"]),
     ("C20", r"cont_R", r".*", ["extrapolate_equals_sol"]),
     ("C20", r"sparsity_A|sparsefd_A", r".*", ["sparsity_groups"]),
